@@ -680,16 +680,24 @@ impl World {
                 wr.internal_modify_uuid(oauth.uuid(), &ModifyList::new_list(vec![m])).map_err(e2s)?;
             }
             Op::ClaimMap { oauth, claim, grp, remove, .. } => {
-                let name = ["claim_a", "claim_b"][*claim as usize % 2].to_string();
-                let m = if *remove {
-                    Modify::Removed(Attribute::OAuth2RsClaimMap, PartialValue::OauthClaim(name, *grp))
-                } else {
-                    Modify::Present(
-                        Attribute::OAuth2RsClaimMap,
-                        Value::new_oauthclaimmap(name, *grp, ["value_x".to_string()].into_iter().collect()).ok_or_else(|| "claimmap".to_string())?,
-                    )
+                // claim 0 / 1: one claim name; 2: the same group under both claim names
+                let names: Vec<String> = match *claim % 3 {
+                    0 => vec!["claim_a".to_string()],
+                    1 => vec!["claim_b".to_string()],
+                    _ => vec!["claim_a".to_string(), "claim_b".to_string()],
                 };
-                wr.internal_modify_uuid(oauth.uuid(), &ModifyList::new_list(vec![m])).map_err(e2s)?;
+                let mut ms = Vec::new();
+                for name in names {
+                    ms.push(if *remove {
+                        Modify::Removed(Attribute::OAuth2RsClaimMap, PartialValue::OauthClaim(name, *grp))
+                    } else {
+                        Modify::Present(
+                            Attribute::OAuth2RsClaimMap,
+                            Value::new_oauthclaimmap(name, *grp, ["value_x".to_string()].into_iter().collect()).ok_or_else(|| "claimmap".to_string())?,
+                        )
+                    });
+                }
+                wr.internal_modify_uuid(oauth.uuid(), &ModifyList::new_list(ms)).map_err(e2s)?;
             }
             Op::DynFilter { grp, filter, .. } => {
                 let ml = ModifyList::new_list(vec![
